@@ -1,2 +1,157 @@
-/- C10 property theorems (under construction) -/
-import Decaf.Model.Exec
+/-
+C10 — Field arithmetic is exact arithmetic mod p in all three fields, both backends.
+
+What the repository wrote around the backend primitives is modelled and proved: every operator returns the
+canonical representative of the ring operation in `ZMod m` (cast lemmas + `< m`), inversion (absent at zero, an
+inverse otherwise), division, exponentiation over EVERY multi-limb exponent (`Fq::power` as repaired, the same loop as
+`pow_le_limbs`), sums and products over lists (incl. empty), and constant-time selection / equality on the
+Montgomery limbs of both wrappers.  The primitives themselves (arkworks Montgomery arithmetic, fiat-crypto) enter by
+contract — exact arithmetic mod p on canonical values — and are validated differentially (DESIGN.md §4).
+-/
+import Decaf.Lemmas.TonelliShanks
+import Decaf.Lemmas.Glue
+import Decaf.Props.C11
+
+namespace C10
+open Model
+
+variable {m : ℕ}
+
+/-- every binary / unary operator: canonical result, exact value in `ZMod m` -/
+theorem add_spec [NeZero m] (a b : ℕ) : fadd m a b < m ∧ ((fadd m a b : ℕ) : ZMod m) = a + b :=
+  ⟨fadd_lt (Nat.pos_of_ne_zero (NeZero.ne m)) a b, cast_fadd a b⟩
+theorem sub_spec [NeZero m] (a b : ℕ) : fsub m a b < m ∧ ((fsub m a b : ℕ) : ZMod m) = a - b :=
+  ⟨fsub_lt (Nat.pos_of_ne_zero (NeZero.ne m)) a b, cast_fsub a b⟩
+theorem mul_spec [NeZero m] (a b : ℕ) : fmul m a b < m ∧ ((fmul m a b : ℕ) : ZMod m) = a * b :=
+  ⟨fmul_lt (Nat.pos_of_ne_zero (NeZero.ne m)) a b, cast_fmul a b⟩
+theorem neg_spec [NeZero m] (a : ℕ) : fneg m a < m ∧ ((fneg m a : ℕ) : ZMod m) = -a :=
+  ⟨fneg_lt (Nat.pos_of_ne_zero (NeZero.ne m)) a, cast_fneg a⟩
+theorem square_spec [NeZero m] (a : ℕ) : fsq m a < m ∧ ((fsq m a : ℕ) : ZMod m) = a * a :=
+  ⟨fsq_lt (Nat.pos_of_ne_zero (NeZero.ne m)) a, cast_fsq a⟩
+theorem double_spec [NeZero m] (a : ℕ) : ((fadd m a a : ℕ) : ZMod m) = 2 * a := by rw [cast_fadd]; ring
+
+/-- as integers: the result of every operator is the integer operation reduced mod m -/
+theorem add_nat (a b : ℕ) : fadd m a b = (a + b) % m := rfl
+theorem mul_nat (a b : ℕ) : fmul m a b = (a * b) % m := rfl
+theorem sub_int [NeZero m] (a b : ℕ) : ((fsub m a b : ℕ) : ℤ) = ((a : ℤ) - b) % m := by
+  have h := cast_fsub (m := m) a b
+  have hlt := fsub_lt (Nat.pos_of_ne_zero (NeZero.ne m)) a b
+  have hz : (((fsub m a b : ℕ) : ℤ) : ZMod m) = (((a : ℤ) - b : ℤ) : ZMod m) := by
+    push_cast; exact h
+  have := (ZMod.intCast_eq_intCast_iff' _ _ _).mp hz
+  rw [← this, Int.emod_eq_of_lt (by positivity) (by exact_mod_cast hlt)]
+
+/-- **inversion**: absent at zero, a genuine inverse otherwise -/
+theorem inverse_spec (F : FP) [Fact F.m.Prime] (hm : 2 < F.m) :
+    F.inverse 0 = none ∧ ∀ x, x < F.m → x ≠ 0 → ∃ y, F.inverse x = some y ∧ y < F.m ∧ fmul F.m x y = 1 := by
+  refine ⟨rfl, fun x hx hx0 => ?_⟩
+  have hxq : (x : ZMod F.m) ≠ 0 := by rwa [Ne, cast_eq_zero_iff hx]
+  refine ⟨finv F.m x, by unfold FP.inverse; simp [hx0], finv_lt (by omega) _, ?_⟩
+  apply eq_of_cast_eq (fmul_lt (by omega) _ _) (by omega)
+  rw [cast_fmul, cast_finv hm, Nat.cast_one, mul_inv_cancel₀ hxq]
+
+theorem div_spec [Fact m.Prime] (hm : 2 < m) (a b : ℕ) : ((fdiv m a b : ℕ) : ZMod m) = (a : ZMod m) / b := cast_fdiv hm a b
+
+/-- **exponentiation honours the whole multi-limb exponent** (`Fq::power`, any number of limbs) -/
+theorem cast_powLeLimbsAux' (bits : List Bool) (acc ins : ℕ) :
+    ((powLeLimbsAux' m bits acc ins : ℕ) : ZMod m) = (acc : ZMod m) * (ins : ZMod m) ^ bitsVal bits := by
+  induction bits generalizing acc ins with
+  | nil => simp [powLeLimbsAux', bitsVal]
+  | cons b bs ih =>
+    unfold powLeLimbsAux'
+    rw [ih]
+    cases b with
+    | true => simp only [if_true, bitsVal, cast_fmul]; rw [pow_add, pow_mul, pow_one]; ring
+    | false => simp only [Bool.false_eq_true, if_false, bitsVal, cast_fmul, zero_add]; rw [pow_mul]; ring
+
+theorem power_spec (F : FP) (x : ℕ) (limbs : List ℕ) (h : ∀ l ∈ limbs, l < 2 ^ 64) :
+    ((F.power x limbs : ℕ) : ZMod F.m) = (x : ZMod F.m) ^ Lit.ofLimbs 64 limbs := by
+  unfold FP.power
+  rw [cast_powLeLimbsAux', bitsVal_limbsBits limbs h]; simp
+
+/-- arkworks' `pow` is modelled by its contract, which is this value too -/
+theorem pow_contract (F : FP) (x : ℕ) (limbs : List ℕ) :
+    ((F.powLimbs x limbs : ℕ) : ZMod F.m) = (x : ZMod F.m) ^ Lit.ofLimbs 64 limbs := by
+  unfold FP.powLimbs; exact cast_powMod _ _ _
+
+/-- **sums and products over iterators** (the empty sum is 0, the empty product is 1) -/
+theorem sum_spec (F : FP) (xs : List ℕ) : ((F.sum xs : ℕ) : ZMod F.m) = (xs.map (Nat.cast : ℕ → ZMod F.m)).sum := by
+  unfold FP.sum
+  suffices ∀ acc : ℕ, ((xs.foldl (fadd F.m) acc : ℕ) : ZMod F.m) = acc + (xs.map (Nat.cast : ℕ → ZMod F.m)).sum by
+    simpa using this 0
+  induction xs with
+  | nil => intro acc; simp
+  | cons x xs ih => intro acc; simp only [List.foldl_cons, List.map_cons, List.sum_cons, ih, cast_fadd, add_assoc]
+
+theorem product_spec (F : FP) (xs : List ℕ) : ((F.product xs : ℕ) : ZMod F.m) = (xs.map (Nat.cast : ℕ → ZMod F.m)).prod := by
+  unfold FP.product
+  suffices ∀ acc : ℕ, ((xs.foldl (fmul F.m) acc : ℕ) : ZMod F.m) = acc * (xs.map (Nat.cast : ℕ → ZMod F.m)).prod by
+    simpa using this (1 % F.m)
+  induction xs with
+  | nil => intro acc; simp
+  | cons x xs ih => intro acc; simp only [List.foldl_cons, List.map_cons, List.prod_cons, ih, cast_fmul, mul_assoc]
+
+/-! ### constant-time selection and equality on the Montgomery limbs -/
+
+theorem zipWith_select (c : Bool) (a b : List ℕ) (h : a.length = b.length) :
+    List.zipWith (fun x y => if c then y else x) a b = if c then b else a := by
+  induction a generalizing b with
+  | nil => cases b <;> cases c <;> simp at h ⊢
+  | cons x xs ih =>
+    cases b with
+    | nil => simp at h
+    | cons y ys =>
+      have := ih ys (by simpa using h)
+      cases c <;> simp_all
+
+/-- Montgomery form round-trips when the radix is invertible -/
+theorem fromMont_toMont (F : FP) [Fact F.m.Prime] (hm : 2 < F.m) (hR : 2 ^ (64 * F.nl) % F.m ≠ 0) (x : ℕ) (hx : x < F.m) :
+    F.fromMont (F.toMont x) = x := by
+  unfold FP.fromMont FP.toMont
+  apply eq_of_cast_eq (fmul_lt (by omega) _ _) hx
+  have hRq : ((2 ^ (64 * F.nl) % F.m : ℕ) : ZMod F.m) ≠ 0 := by
+    rwa [Ne, cast_eq_zero_iff (Nat.mod_lt _ (by omega))]
+  simp only [cast_fmul, cast_finv hm, ZMod.natCast_mod, Nat.cast_mul] at hRq ⊢
+  rw [mul_assoc, mul_inv_cancel₀ hRq, mul_one]
+
+/-- **selection returns exactly one of its two operands** (limb width 64: u64 wrapper; 32: u32 wrapper) -/
+theorem select_spec (F : FP) [Fact F.m.Prime] (hm : 2 < F.m) (hR : 2 ^ (64 * F.nl) % F.m ≠ 0) (w : ℕ)
+    (hw : (2 ^ w) ^ (64 * F.nl / w) = 2 ^ (64 * F.nl)) (hF : F.m < 2 ^ (64 * F.nl))
+    (a b : ℕ) (ha : a < F.m) (hb : b < F.m) (c : Bool) :
+    F.selectLimbs w a b c = if c then b else a := by
+  unfold FP.selectLimbs
+  simp only []
+  have hlt : ∀ x, F.toMont x < (2 ^ w) ^ (64 * F.nl / w) := by
+    intro x; rw [hw]; exact lt_trans (Nat.mod_lt _ (by omega)) hF
+  obtain ⟨la, _, ea⟩ := C11.toLimbs_spec w (F.toMont a) _ (hlt a)
+  obtain ⟨lb, _, eb⟩ := C11.toLimbs_spec w (F.toMont b) _ (hlt b)
+  rw [zipWith_select c _ _ (by rw [la, lb])]
+  cases c with
+  | true => simp only [if_true]; rw [eb, fromMont_toMont F hm hR b hb]
+  | false => simp only [Bool.false_eq_true, if_false]; rw [ea, fromMont_toMont F hm hR a ha]
+
+/-- **constant-time equality is equality** -/
+theorem ct_eq_spec (F : FP) [Fact F.m.Prime] (hm : 2 < F.m) (hR : 2 ^ (64 * F.nl) % F.m ≠ 0) (w : ℕ)
+    (hw : (2 ^ w) ^ (64 * F.nl / w) = 2 ^ (64 * F.nl)) (hF : F.m < 2 ^ (64 * F.nl))
+    (a b : ℕ) (ha : a < F.m) (hb : b < F.m) : F.ctEq w a b = true ↔ a = b := by
+  unfold FP.ctEq
+  simp only [beq_iff_eq]
+  have hlt : ∀ x, F.toMont x < (2 ^ w) ^ (64 * F.nl / w) := by
+    intro x; rw [hw]; exact lt_trans (Nat.mod_lt _ (by omega)) hF
+  constructor
+  · intro h
+    have := congrArg (Lit.ofLimbs w) h
+    rw [(C11.toLimbs_spec w _ _ (hlt a)).2.2, (C11.toLimbs_spec w _ _ (hlt b)).2.2] at this
+    have := congrArg F.fromMont this
+    rwa [fromMont_toMont F hm hR a ha, fromMont_toMont F hm hR b hb] at this
+  · rintro rfl; rfl
+
+/-- the side conditions hold for Fq, both limb widths (kernel evaluation) -/
+theorem fq_select_side : 2 ^ (64 * Exec.fqP.nl) % Exec.fqP.m ≠ 0 ∧ (2 ^ 64) ^ (64 * Exec.fqP.nl / 64) = 2 ^ (64 * Exec.fqP.nl) ∧
+    (2 ^ 32) ^ (64 * Exec.fqP.nl / 32) = 2 ^ (64 * Exec.fqP.nl) ∧ Exec.fqP.m < 2 ^ (64 * Exec.fqP.nl) := by decide +kernel
+
+/-- non-vacuity: a two-limb exponent; the empty product; a selection -/
+example : Exec.fqP.power 3 [0, 1] = powMod 3 (2 ^ 64) q ∧ Exec.frP.product [] = 1 ∧ Exec.fqP.selectLimbs 64 5 7 true = 7 ∧
+    Exec.fqP.selectLimbs 32 5 7 false = 5 := by decide +kernel
+
+end C10
